@@ -493,6 +493,13 @@ func (p *Printer) flushHeredocs() {
 			}
 			p.indent()
 		} else if r.Hdoc != nil {
+			if quotedHdocWord(r.Word) {
+				// The body may start further down than the next
+				// line, such as after a multi-line command
+				// substitution; that is not a reason to write
+				// escaped newlines into it, as they are literal.
+				p.advanceLine(r.Hdoc.Pos().Line())
+			}
 			p.wordParts(r.Hdoc.Parts, true)
 		}
 		p.unquotedWord(r.Word)
@@ -506,6 +513,22 @@ func (p *Printer) flushHeredocs() {
 	p.level = newLevel
 	p.pendingComments = coms
 	p.mustNewline = true
+}
+
+// quotedHdocWord reports whether a here-document delimiter word is quoted,
+// making its body literal text.
+func quotedHdocWord(w *Word) bool {
+	for _, wp := range w.Parts {
+		switch wp := wp.(type) {
+		case *SglQuoted, *DblQuoted:
+			return true
+		case *Lit:
+			if strings.Contains(wp.Value, "\\") {
+				return true
+			}
+		}
+	}
+	return false
 }
 
 // newline prints between zero and two newlines.
